@@ -47,7 +47,7 @@ def profiles(tier):
     P.append(("closure", Profile("metadata", spec2, False, mops), {}))
     flip = A.record_weights(kn, U2, m2, batch_pairs=[(m2[0], m2[1])])
     P.append(("closure", Profile("weights-on-unweighted", spec2, False, flip, enabled=A.weight_cap(3)), {}))
-    d = 3 if tier == "quick" else 4
+    d = 3 if tier == "quick" else 5
     hs = A.record_structure(kn, U, [recs[0], recs[1], recs[4], recs[2]], absent_record=absent_rec, batches=False)
     P.append(("histories", Profile("hist-structure", spec, False, hs), {"depth": d}))
     hw = A.record_weights(kn, U, [w4[0], w4[2]], batch_pairs=[(w4[0], w4[2])])
